@@ -292,6 +292,8 @@ func rulesC11(w *World, r *Report) {
 		ruleLatchedVerdict(w, r, "C11.R3", ex)
 		ruleGlobArgs(w, r, "C11.R3", ex, fn(w.Cmd, "globItems"), "ItemPattern")
 		ruleLoopGoesOn(w, r, "C11.R3", "SumDiffCommand.execute:every-item", firstLoopCall(ex, fn(w.Cmd, "SumDiffCommand.sumDiffItem")), "every matched item is compared, also after a difference was found")
+		// the listing of deviating slots reaches the text output also when the verdict (an error) is returned
+		ruleFinishAlways(w, r, "C11.R3")
 	}
 	if ex := fn(w.Cmd, "SumCopyCommand.execute"); ex != nil {
 		ruleGlobArgs(w, r, "C11.R1", ex, fn(w.Cmd, "globItems"), "ItemPattern")
